@@ -20,7 +20,11 @@ class FloorProp(Prop):
         'observation reads private slots (_part, _output, _buffer, _in_progress_batch)',
     ]
 
+    crash_every = 0      # every n-th run is a crash-point case (fault placed at an event boundary of a dry run)
+
     def gen(self, rng, index, tier):
+        if self.crash_every and index % self.crash_every == self.crash_every - 1:
+            return floorsim.gen_crashpoint(rng)
         return floorsim.gen_case(rng, self.profile)
 
     def run(self, case):
